@@ -141,7 +141,7 @@ pub enum RunKind {
     Long { calls: usize },
 }
 
-pub const FAULT_NAMES: [&str; 8] = [
+pub const FAULT_NAMES: [&str; 9] = [
     "F1_err_call",
     "F2_panic_call",
     "F3_placeholder_flip",
@@ -150,6 +150,7 @@ pub const FAULT_NAMES: [&str; 8] = [
     "F6_thread_churn",
     "F7_same_call_concurrent",
     "F8_clock_jump",
+    "F9_caller_stack_depth",
 ];
 
 fn pick_policy(r: &mut Rng, nthreads: usize, kind: RunKind, allow_intra: bool) -> Policy {
@@ -193,8 +194,9 @@ pub fn make_spec(pool: &Pool, ix: &PoolIndex, seed: u64, kind: RunKind, allow_in
     let f4 = r.chance(0.4) && !ix.cross_texts.is_empty();
     let f6 = r.chance(0.3);
     let f8 = r.chance(0.3);
+    let f9 = r.chance(0.25);
     let mut faults_enabled: Vec<&'static str> = Vec::new();
-    for (on, name) in [(f1, "F1"), (f2, "F2"), (f3, "F3+F7_theme"), (f4, "F4"), (f6, "F6"), (f8, "F8")] {
+    for (on, name) in [(f1, "F1"), (f2, "F2"), (f3, "F3+F7_theme"), (f4, "F4"), (f6, "F6"), (f8, "F8"), (f9, "F9")] {
         if on {
             faults_enabled.push(name);
         }
@@ -233,6 +235,7 @@ pub fn make_spec(pool: &Pool, ix: &PoolIndex, seed: u64, kind: RunKind, allow_in
     let mut clients: Vec<Vec<u32>> = Vec::new();
     let mut churn: Vec<Vec<u32>> = Vec::new();
     let mut jumps: Vec<Vec<(u32, i64, i64)>> = Vec::new();
+    let mut depths: Vec<Vec<(u32, u32)>> = Vec::new();
     for _t in 0..nthreads {
         let ncalls = match kind {
             RunKind::Short => {
@@ -363,6 +366,17 @@ pub fn make_spec(pool: &Pool, ix: &PoolIndex, seed: u64, kind: RunKind, allow_in
             }
             js.sort();
         }
+        let mut ds: Vec<(u32, u32)> = Vec::new();
+        if f9 {
+            // the caller's stack depth at the moment of the call: most calls from the thread's base, some from a frame
+            // kilobytes to megabytes further down (the library must not care where on the stack its caller lives)
+            for k in 0..ncalls {
+                if r.chance(if ncalls > 100 { 0.02 } else { 0.3 }) {
+                    ds.push((k as u32, [4u32, 64, 512, 1200, 1200, 2048, 4096, 8192][r.below(8)]));
+                }
+            }
+        }
+        depths.push(ds);
         jumps.push(js);
         clients.push(calls);
         churn.push(ch);
@@ -383,5 +397,6 @@ pub fn make_spec(pool: &Pool, ix: &PoolIndex, seed: u64, kind: RunKind, allow_in
         want_trace: false,
         faults_enabled,
         clock_jumps: jumps,
+        stack_depths: depths,
     }
 }
